@@ -1356,26 +1356,94 @@ def correspondence(ctx):
 
 
 def search(ctx, reason):
-    """implementation arm: the property predicates do not need the Lean side"""
-    return False
+    """implementation arm after a broken proof / tie: the property predicates that need no Lean side — results
+    against fresh-object references, caller arrays, definition attributes, thread counts — over random sequences"""
+    rng = ctx.rng
+    note = ' [after: %s]' % '; '.join(reason)[:200]
+    for _ in range(ctx.scale(60, 600)):
+        D = gen_panel_def(rng, plain=rng.random() < 0.5)
+        ops = gen_panel_ops(rng, D)
+        A = Args(D)
+        replay = dict(kind='panel', definition=D, ops=ops)
+        recs, _ = run_panel_sequence(D, ops, A)
+        ctx.evaluations += len(ops)
+        tainted = False               # after calc_kt_kr on a panel with offset results may legitimately differ (known)
+        for i, r in enumerate(recs):
+            if r['op'] == 'ktkr' and not D['offsetZero']:
+                tainted = True
+            if r['mutated'] and ctx.violation('call %d (%s) modified the caller-supplied array(s) %s%s'
+                                              % (i, r['op'], r['mutated'], note), replay):
+                return True
+            bad = [w for w in r['W'] if w not in WRITE_ATTRS]
+            if bad and ctx.violation('call %d (%s) writes the definition attribute(s) %s%s' % (i, r['op'], bad, note),
+                                     replay):
+                return True
+            if r['oc'] != 'ok':
+                continue
+            pb = build_panel(D)
+            ocW, _, _ = logged(pb, panel_call('k0:0', A))
+            ocB, valB, _ = logged(pb, panel_call(r['op'], A))
+            if ocW == 'ok' and ocB == 'ok' and not same_result(r['val'], valB):
+                ident = 'C20-kt_kr-builds-lam-without-offset' if (tainted or r['op'] == 'ktkr') else None
+                if ctx.violation('call %d (%s) returns a result different from a fresh object after calc_k0()%s'
+                                 % (i, r['op'], note), replay, identity=ident):
+                    return True
+    thread_clauses(ctx)
+    return bool(ctx.violations)
 
 
 def replay(ctx, data):
     r = data['replay']
-    if r.get('kind') == 'panel':
+    kind = r.get('kind')
+    if kind == 'panel':
         D, ops = r['definition'], r['ops']
         dist = dict(outcomes={}, ops={}, fresh_ok=0, fresh_fail=0, fresh_fail_known={}, order_dependent_known=0,
                     token_differs_numbers_equal=0, solver_failures=0, cases=1)
         replies = driver(panel_lines(D, ops), pid='C20')
         panel_case(ctx, D, ops, replies, dist)
         print(json.dumps(dist))
-        for v in ctx.violations:
-            print('VIOLATION', v['what'])
-        for k, t in ctx.known_hits:
-            print('KNOWN-FINDING', k)
-        return 1 if ctx.violations else 0
-    print('replay names no input:', data['what'])
-    return 1
+    elif kind == 'asm':
+        AD, ops = r['definition'], r['ops']
+        dist = dict(outcomes={}, fresh_fail_known={}, order_dependent_known=0, cases=1)
+        asm_case(ctx, AD, ops, driver(asm_lines(AD, ops), pid='C20'), dist)
+        print(json.dumps(dist))
+    elif kind == 'bay':
+        BD, ops = r['definition'], r['ops']
+        rep = driver(['C20 bay %d %d | %s' % (BD['modelGiven'], BD['stiff'] is not None, ' '.join(ops))], pid='C20')[0]
+        recs = run_bay_sequence(BD, ops)
+        print('model         :', rep)
+        print('implementation:', ' ; '.join(oc for oc, _ in recs))
+        if [x.strip() for x in rep.split(' ; ')] != [oc for oc, _ in recs]:
+            ctx.violation('StiffPanelBay outcomes differ from the model', r)
+    elif kind == 'threads':
+        D = r['definition']
+        p = build_panel(D)
+        A = Args(D)
+        with quiet():
+            p.calc_k0(silent=True)
+        rs = np.random.RandomState(0)
+        xs, ys = rs.uniform(0, D['N']['a'], r['npts']), rs.uniform(0, D['N']['b'], r['npts'])
+        outs = []
+        for nc in (1, r['num_cores']):
+            p.out_num_cores = nc
+            with quiet():
+                outs.append((tuple(np.array(x) for x in p.uvw(A.c, xs=xs, ys=ys)), p.strain(A.c, xs=xs, ys=ys)))
+        if not same_result(outs[0], outs[1]):
+            ctx.violation('field query with %d cores differs from 1 core' % r['num_cores'], r)
+    elif kind == 'cone':
+        CD, ops = r['definition'], r['ops']
+        rep = driver(['C20 cone %d %d | %s' % (CD['fcGiven'], CD['rebuilt'], ' '.join(ops))], pid='C20')[0]
+        print('model:', rep)
+        print('run  : /venv/bin/python -c "from tools.props import C20; print([x[0] for x in C20.cone_sequence(%r, %r)])"'
+              % (CD, ops))
+    else:
+        print('replay names no input:', data['what'])
+        return 1
+    for v in ctx.violations:
+        print('VIOLATION', v['what'])
+    for k, t in ctx.known_hits:
+        print('KNOWN-FINDING', k)
+    return 1 if ctx.violations else 0
 
 
 if __name__ == '__main__':
